@@ -57,7 +57,7 @@ def effToJson : Eff Val Val → Json
 def runSteps (cfg : Cfg Val Val Val) : St Val Val → List (Ev Val) → List (List (Eff Val Val)) × St Val Val
   | s, [] => ([], s)
   | s, e :: es =>
-    let s' := stepD cfg { s with out := [] } e
+    let s' := stepN cfg { s with out := [] } e
     let (r, sf) := runSteps cfg s' es
     (s'.out :: r, sf)
 
@@ -105,6 +105,13 @@ def handle (op : String) (j : Json) : Except String Json := do
           | .null => pure none
           | n => do pure (some (← n.getNat?))
       | _ => pure [] : Except String (List (Option Nat)))
+    let nestL ← (do
+      match j.getObjVal? "nest" with
+      | .ok (.arr xs) => xs.toList.mapM fun x =>
+          match x with
+          | .arr ys => ys.toList.mapM valOfJson
+          | _ => pure []
+      | _ => pure [] : Except String (List (List Val)))
     let immL ← (do
       match j.getObjVal? "imm" with
       | .ok (.arr xs) => xs.toList.mapM fun x => x.getBool?
@@ -117,7 +124,8 @@ def handle (op : String) (j : Json) : Except String Json := do
       durMapper := fun g => if durRaise.contains g then .error s!"durmap{g}" else .ok ()
       dsync := fun g => (dsyncL[g]?).getD none
       imm := fun g => (immL[g]?).getD true
-      dgrp := fun g => (dgrpL[g]?).getD none }
+      dgrp := fun g => (dgrpL[g]?).getD none
+      nest := fun g => (nestL[g]?).getD [] }
     let (effs, sf) := runSteps cfg init evs
     pure (Json.mkObj [
       ("effects", Json.arr (effs.map fun l => Json.arr (l.map effToJson).toArray).toArray),
